@@ -138,7 +138,7 @@ def prepare(tier):
 
 
 def shards(tier, seed):
-    """quick: 7 NVX shards per framework + one pure-Python shard per framework = 16 processes, ~30 s of CPU each;
+    """quick: 7 NVX shards per framework + one pure-Python shard per framework = 16 processes, ~20 s of CPU each on an idle machine;
     thorough: 4 NVX + 4 pure-Python shards per framework = 16 processes, ~5 min of CPU each."""
     out = []
     nvx_env = _nvx_env()
@@ -1376,20 +1376,20 @@ def run_shard(params, R):
     mini = bool(params.get("mini"))
     # 2. glue: first frames in the segment of the opening handshake response
     t1 = time.time()
-    for i in range(100 if thorough else (5 if mini else 10)):
+    for i in range(100 if thorough else (10 if mini else 24)):
         for glue in ("one", "nodrain", str(rng.choice([0, 1, 2, 3, 5, 6, 7, 9, 13]))):
             run_case({"kind": "glue", "seed": S(), "tier": tier, "glue": glue,
                       "n_msgs": rng.choice([2, 3, 5, 8])}, R)
     phase["glue"] = round(time.time() - t1, 1)
     # 3. early data at the server
     t1 = time.time()
-    for i in range(100 if thorough else (4 if mini else 8)):
+    for i in range(100 if thorough else (6 if mini else 12)):
         for glue in ("one", "1", "2", "5", "6", "7"):
             run_case({"kind": "early", "seed": S(), "glue": glue}, R)
     phase["early"] = round(time.time() - t1, 1)
     # 4. every cut position of short streams (every pair of cut positions for some of them in thorough)
     t1 = time.time()
-    for i in range(20 if thorough else (2 if mini else 4)):
+    for i in range(20 if thorough else (3 if mini else 6)):
         cs = S()
         probe = CaseRun({"kind": "cuts", "seed": cs, "tier": tier}, R).run()
         lens = getattr(probe, "stream_len", {})
@@ -1409,7 +1409,7 @@ def run_shard(params, R):
     # 5. random cases
     t1 = time.time()
     # fixed amounts of work, not wall time: the same seed runs the same cases on a loaded machine too
-    n_rand = 110 if not thorough else 4000
+    n_rand = 350 if not thorough else 4000
     for i in range(n_rand):
         kind = "glue" if rng.random() < 0.12 else "pair"
         case = {"kind": kind, "seed": S(), "tier": tier}
